@@ -314,6 +314,8 @@ def run(ck, F):
     # a declaration entered a second time (same name and type: a redeclaration; or a new type under a known name) reports its own
     # operands like a first declaration does
     redeclaration_operands(ck, F, 'C02')
+    import c12 as _c12
+    _c12.level_given(ck, F, 'C02')
 
     # elements the client builds in place (tokens of a pragma, captures of a closure, designators of a using-declaration): no
     # factory stands between the client's arguments and the node, the constructor is the contract
